@@ -1,11 +1,11 @@
 ---- MODULE MC_C07_thorough_D_q11_polys ----
 EXTENDS C07
-MC_DomH1 == {1,5}
+MC_DomH1 == {5}
 MC_DomH2 == {3}
-MC_DomH3 == {2,5}
+MC_DomH3 == {2}
 MC_DomH4 == {7}
 MC_DomH5 == {9}
-MC_DomHDKG == {0,4}
+MC_DomHDKG == {4}
 MC_DomHR == {1}
 MC_DomHID == {1}
 MC_Shapes == {<<3,2>>, <<3,3>>}
@@ -16,6 +16,7 @@ MC_KChoices == {2}
 MC_MaxExtra == 0
 MC_RandChoices == {1}
 MC_Msg == <<104,105>>
+MC_SweepSigners == FALSE
 MC_EMIT == TRUE
 
 ====
